@@ -159,6 +159,10 @@ def judge_history(ctx, rec):
         if rec["truncated"]:
             ctx.count("history", "truncated-by-budget")
         return
+    if not isinstance(fin["rcA"], int) or not isinstance(fin["rcB"], int) or not isinstance(fin.get("rc2", 0), int):
+        ctx.count("history", "no-verdict:timeout")
+        ctx.skip("an invocation timed out or the harness failed")
+        return
     if fin["rcB"] != 0:
         # the generated project does not build from scratch either: a generator problem, not a verdict
         ctx.count("history", "clean-build-fails")
